@@ -154,8 +154,9 @@ func (b *EndpointBuilder) EndpointsByNetworkFilter(endpoints []*LocalityEndpoint
 			forceGateway := b.network == "" && epNetwork != "" && len(gateways) > 0
 			if !forceGateway && (b.proxy.InNetwork(epNetwork) || len(gateways) == 0) {
 				// The endpoint is directly reachable - just add it.
-				// If there is no gateway, the address must not be empty
-				if util.GetEndpointHost(lbEp) != "" {
+				// If there is no gateway, the address must not be empty. A unix domain socket (pipe address)
+				// has no host but is an address of its own.
+				if util.GetEndpointHost(lbEp) != "" || lbEp.GetEndpoint().GetAddress().GetPipe() != nil {
 					lbEndpoints.append(ep.istioEndpoints[i], lbEp)
 				}
 
